@@ -397,6 +397,9 @@ class Kernel(Module):
 
         # Reshape the buffers of the kernel
         for buffr_name, buffr in self.named_buffers(recurse=False):
+            # active_dims holds column indices, it does not carry the batch shape
+            if buffr_name == "active_dims":
+                continue
             # For a given buffer, get the number of dimensions that do not correspond to the batch shape
             non_batch_shape = buffr.shape[len(orig_batch_shape) :]
             new_buffer_shape = torch.Size([*new_batch_shape, *non_batch_shape])
@@ -587,6 +590,9 @@ class Kernel(Module):
             new_kernel.batch_shape = new_param.shape[:new_batch_shape_len]
 
         for buffr_name, buffr in self.named_buffers(recurse=False):
+            # active_dims holds column indices, it does not carry the batch shape
+            if buffr_name == "active_dims":
+                continue
             # For a given buffer, get the number of dimensions that do not correspond to the batch shape
             new_buffr = new_kernel.__getattr__(buffr_name)
             new_buffr.data = new_buffr.__getitem__(index)
